@@ -726,7 +726,9 @@ class NDNApp:
             For example, manually or by the other side.
         """
         async def starting_task():
-            for name in self._autoreg_routes:
+            # The routes declared before this connection; one declared while these registrations are under way
+            # registers itself (see ``route``) and must not be registered a second time from here
+            for name in routes_at_start:
                 await self.register(name)
             if after_start:
                 try:
@@ -744,6 +746,7 @@ class NDNApp:
                 elif isinstance(after_start, (aio.Task, aio.Future)):
                     after_start.cancel()
             raise
+        routes_at_start = list(self._autoreg_routes)
         task = aio.create_task(starting_task())
         self.logger.debug('Connected to NFD node, start running...')
         try:
